@@ -447,6 +447,15 @@ func Check(c Case) (v vcase.Verdict) {
 				}
 			}
 			if err != nil {
+				// Known finding C19-a: a query that the server's parser finds
+				// unsatisfiable (two terms on one key that exclude each other) is
+				// answered with nothing by Query but with the error "EOF" by
+				// ListUploads. Booked only with exactly that signature.
+				if cl.contra && full == 0 && strings.TrimSpace(err.Error()) == "EOF" && vcase.KnownListed("C19-a") {
+					v.KnownHit("C19-a")
+					v.Label("list:known_finding_C19-a")
+					continue
+				}
 				v.Failf("%s: ListUploads(%q, %q, %d) failed: %v (model: %d uploads match)", where, q, st.Extra, st.Limit, err, full)
 				return
 			}
